@@ -439,7 +439,7 @@ func (c *specCtx) selectField(base *SVal, name string) *SVal {
 		if cur.Obj {
 			owner := typeName(ct)
 			if isStructVal(f.Type()) && !isSyncType(f.Type()) {
-				cur = &SVal{T: e.subRef(owner, f, cur.T), Ty: f.Type(), Obj: true}
+				cur = &SVal{T: e.subRefIn(c.st, owner, f, cur.T), Ty: f.Type(), Obj: true}
 			} else {
 				if c.pure {
 					c.fail("heap access in pure ghost function: %s", name)
